@@ -9,7 +9,8 @@
 // and the CLI commands `dep graph`, `ls-files --include-imports`, `build` on scratch directories)
 // are compared with a small reference model (refgraph, expect.go) computed from the digraph alone.
 // Ambiguity plants (a path in two modules, an import nobody provides, two commits of one name) are
-// enumerated over the same digraphs.
+// enumerated over the same digraphs. strengthen.go adds: a module providing a well-known type (family W),
+// three commits of one name under every map iteration order (family M), registry faults (family F).
 package c10
 
 import (
@@ -93,7 +94,9 @@ func (ck *checker) done() bool {
 func (ck *checker) family(name string, fraction float64, f func()) {
 	ck.soft = ck.start.Add(time.Duration(float64(ck.budget) * fraction))
 	ck.softCut.Store(false)
+	t0 := time.Now()
 	f()
+	ck.r.Set("family_wall_s_"+name, float64(int(time.Since(t0).Seconds()*10))/10) // informational only
 	if ck.softCut.Load() {
 		ck.r.Incomplete(fmt.Sprintf("family %s: its share of the time budget (until %.0f%% of %s) was used up before all work items ran", name, fraction*100, ck.budget))
 	}
@@ -143,9 +146,11 @@ func run(r *evid.Run) {
 	if ck.stopEarly {
 		r.Incomplete("C10_STOP_ON_VIOLATION: remaining work is skipped after the first violation")
 	}
-	r.Rule("one case = (module import digraph, node kinds, v1|v2, plant, target); all digraphs on n nodes x all kind vectors that can exist x both config versions x all targets are run; a case is counted distinct non-trivial when its digraph has an edge or it carries a plant (key = spec/target)")
+	r.Rule("one case = (module import digraph, node kinds, v1|v2, plant, target); all digraphs on n nodes x all kind vectors that can exist x both config versions x all targets are run; a case is counted distinct non-trivial when its digraph has an edge or it carries a plant (key = spec/target). Further dimensions: a module that itself provides a well-known-type path and is imported through it alone (every node with an in-edge); three commits of one name pinned by three buf.lock files x every assignment of commits to locks x map-iteration start seeds 0..7; registry faults (faulty provider-served module x fault point) on the plain graphs and on the plants")
 	r.Assume("registry commits are self-contained and acyclic (a provider-only module imports only provider modules); kind vectors violating this are filtered and counted")
 	r.Assume("create times of two commits of one name differ (ties are C02's business)")
+	r.Assume("an injected registry fault is an error other than fs.ErrNotExist (download failure, digest mismatch, I/O error of the module's bucket); under a fault an observation must fail or still equal the reference, and must not report an ambiguity (cycle, duplicate path, import not provided) the workspace does not have")
+	r.Assume("map iteration order is controlled through the runtime overlay (build tag mapseed): with <= 8 entries the seeds 0..7 give every rotation of the insertion order, and the insertion order of the commits of one name is the order of the buf.lock files, which is enumerated")
 	r.Assume("remote modules are served by an in-process provider (bufmoduletesting.OmniProvider per commit generation, routed by commit id); the CLI families use only modules present locally because the CLI's registry client cannot be replaced offline")
 	r.Assume("a module that merely reaches a cycle it is not on gets exact deps; the cycle error is demanded only from ModuleDeps of modules on the cycle and from ModuleSetToDAG / dep graph")
 
@@ -160,7 +165,7 @@ func run(r *evid.Run) {
 	}
 	r.Set("max_nodes", maxN)
 
-	// C10_ONLY=graphs|plants|cli runs one family (development aid; the run is then marked incomplete)
+	// C10_ONLY=graphs|layouts|plants|wkt|multi|faults|cli runs one family (development aid; the run is then marked incomplete)
 	only := os.Getenv("C10_ONLY")
 	if only != "" {
 		r.Incomplete("C10_ONLY=" + only + ": only one family was run")
@@ -179,26 +184,27 @@ func run(r *evid.Run) {
 	// on map iteration order shows up reproducibly and in family M only.
 	setMapSeed(0, true)
 	defer setMapSeed(0, false)
-	if only == "" || only == "graphs" {
-		ck.family("graphs", 0.30, func() { ck.familyGraphs(maxN) })
+	// cumulative shares of the time budget, from the measured cost of the families in each tier
+	share := map[string]float64{"graphs": 0.30, "layouts": 0.40, "plants": 0.60, "wkt": 0.70, "multi": 0.75, "faults": 0.80, "cli": 1.0}
+	if !r.Quick() {
+		share = map[string]float64{"graphs": 0.36, "layouts": 0.40, "plants": 0.54, "wkt": 0.67, "multi": 0.82, "faults": 0.85, "cli": 1.0}
 	}
-	if only == "" || only == "layouts" {
-		ck.family("layouts", 0.40, func() { ck.familyLayouts(min(maxN, 3)) })
+	families := []struct {
+		name string
+		f    func()
+	}{
+		{"graphs", func() { ck.familyGraphs(maxN) }},
+		{"layouts", func() { ck.familyLayouts(min(maxN, 3)) }},
+		{"plants", func() { ck.familyPlants(maxN) }},
+		{"wkt", func() { ck.familyWKT(maxN) }},
+		{"multi", func() { ck.familyMultiCommit() }},
+		{"faults", func() { ck.familyFaults(min(maxN, 3)) }},
+		{"cli", func() { ck.familyCLI(min(maxN, 3)) }},
 	}
-	if only == "" || only == "plants" {
-		ck.family("plants", 0.54, func() { ck.familyPlants(maxN) })
-	}
-	if only == "" || only == "wkt" {
-		ck.family("wkt", 0.66, func() { ck.familyWKT(maxN) })
-	}
-	if only == "" || only == "multi" {
-		ck.family("multi", 0.74, func() { ck.familyMultiCommit() })
-	}
-	if only == "" || only == "faults" {
-		ck.family("faults", 0.82, func() { ck.familyFaults(min(maxN, 3)) })
-	}
-	if only == "" || only == "cli" {
-		ck.family("cli", 1.0, func() { ck.familyCLI(min(maxN, 3)) })
+	for _, fam := range families {
+		if only == "" || only == fam.name {
+			ck.family(fam.name, share[fam.name], fam.f)
+		}
 	}
 
 	c := &ck.c
@@ -235,7 +241,7 @@ func run(r *evid.Run) {
 		"dag": c.dagExact.Load(), "dag cycle": c.dagCycle.Load(), "local beats pinned": c.precedence.Load(),
 		"newest commit": c.newestCommit.Load(), "images": c.images.Load(), "non-target files": c.imageNonTargetModuleFiles.Load(),
 		"ls-files": c.lsfiles.Load(), "duplicate": c.dupDepsDemands.Load() + c.dupImageDemands.Load(),
-		"missing import": c.missDepsDemands.Load() + c.missImageDemands.Load(),
+		"missing import":                    c.missDepsDemands.Load() + c.missImageDemands.Load(),
 		"dep through a module-provided wkt": c.wktDeps.Load(), "image with a module-provided wkt": c.wktImageFiles.Load(),
 		"three commits of one name": c.threeCommits.Load(), "duplicate well-known-type path": c.dupWKTDemands.Load(), "fault surfaced": c.faultSurfaced.Load(),
 		"fault on a plant": c.faultPlantDemands.Load(),
